@@ -414,6 +414,10 @@ def run(ctx):
                100} for i in range(common.NCPU)]
     results = common.run_shards('checks.c17', shards, timeout=3400)
     common.merge_shards(ctx, results)
+    # real-run part: function inlining in a real run answers from symbol
+    # tables that must be those of the current input
+    from checks import c17_real
+    c17_real.run(ctx, 'defs')
     ctx.rule = (
         'gen_smt scripts over Core/Ints/Reals/BV/datatypes/UF/let/'
         'quantifiers/define-fun plus injected instances of every shape the '
@@ -422,7 +426,12 @@ def run(ctx):
         'coincidences (arguments mentioning formal parameter names, let '
         'shadowing); evaluations = judged (subterm, replacement) pairs; '
         'distinct non-trivial = distinct generated scripts (each has >= 2 '
-        'judged pairs by construction of the injected shapes)')
+        'judged pairs by construction of the injected shapes); real-run '
+        'part: at every point where the main thread starts generating '
+        'simplifications for an input (TaskGenerator construction and '
+        'sequential task generation, Producer construction) the definition '
+        'that would be inlined for each defined function is compared with '
+        'the definition in that input')
     ctx.assumptions = [
         'vlib.evalsmt is the value oracle (cross-checked against z3 in the '
         'self-test)',
